@@ -625,3 +625,12 @@ impl NaiveDateTime {
 }
 } // verus!
 } // mod chrono
+
+// serde_json::Value occurs in a few message structs (copied original fields): an opaque type here
+pub mod serde_json {
+use vstd::prelude::*;
+verus! {
+#[verifier::external_body]
+pub struct Value { p: u8 }
+}
+}
